@@ -345,7 +345,7 @@ def notify_flow(ctx, res):
     if len(dot_rule) != 1 or len(colon_rule) != 1:
         raise AnalysisError("connector rules not found")
     # _handle_series
-    fn = repo.func(PARSING, "_handle_series")
+    fn = repo.inlined(PARSING, "_handle_series", keep=("_handle_tree",))
     ps = [a.arg for a in fn.args.args]
     res.instance("_handle_series", mod.loc(fn))
     cmpn = [n for n in ast.walk(fn) if isinstance(n, ast.Compare)
@@ -366,7 +366,7 @@ def notify_flow(ctx, res):
     res.oblige(ok, "_handle_series:flags", mod.loc(fn),
                "series must be left(notify iff '.').then(right(inherited "
                "notify))")
-    fn = repo.func(PARSING, "_handle_parallel")
+    fn = repo.inlined(PARSING, "_handle_parallel", keep=("_handle_tree",))
     ps = [a.arg for a in fn.args.args]
     rets = [n for n in ast.walk(fn) if isinstance(n, ast.Return)]
     res.instance("_handle_parallel", mod.loc(fn))
